@@ -11,7 +11,10 @@ Inductive rd :=
 | RFetch (i : N)                 (* Tx.FetchBlock *)
 | RRegion (i off n : N)          (* Tx.FetchBlockRegion *)
 | RHeader (i : N)                (* Tx.FetchBlockHeader *)
-| RLoc (i : N).                  (* raw block-index row (verif view) *)
+| RLoc (i : N)                   (* raw block-index row (verif view) *)
+| RRegions (reqs : list (N * N * N))   (* Tx.FetchBlockRegions: (block, offset, length) *)
+| RHeaders (is : list N)               (* Tx.FetchBlockHeaders *)
+| RBlocks (is : list N).               (* Tx.FetchBlocks *)
 
 (* block contents are generated identically on both sides to keep the case
    files small: LCG bytes, a pattern that looks like record framing, a ramp;
@@ -43,6 +46,7 @@ Inductive op :=
 Inductive ob :=
 | BBytes (b : bytes)
 | BDig (n crc : N)
+| BBulk (l : list (N * N))   (* a bulk result: (length, CRC-32C) of every element *)
 | BErr (code : N)        (* 1 not found, 2 region invalid, 3 driver specific, 4 corruption, 7 panic, 9 other *)
 | BNone
 | BCur (f o : N)
@@ -54,10 +58,23 @@ Definition dig (b : bytes) : ob := if len b <? 16 then BBytes b else BDig (len b
 Definition ob_of (r : res bytes) : ob :=
   match r with Ok b => dig b | Err e => BErr (code e) | Panic => BErr 7 end.
 
+Fixpoint pairs_eqb (a b : list (N * N)) : bool :=
+  match a, b with
+  | [], [] => true
+  | (x, y) :: a', (x', y') :: b' => (x =? x') && (y =? y') && pairs_eqb a' b'
+  | _, _ => false
+  end.
+Definition ob_of_bulk (r : res (list bytes)) : ob :=
+  match r with
+  | Ok l => BBulk (map (fun b => (len b, crc32c b)) l)
+  | Err e => BErr (code e)
+  | Panic => BErr 7
+  end.
 Definition ob_eqb (a b : ob) : bool :=
   match a, b with
   | BBytes x, BBytes y => bytes_eqb x y
   | BDig n c, BDig n' c' => (n =? n') && (c =? c')
+  | BBulk l, BBulk l' => pairs_eqb l l'
   | BErr x, BErr y => x =? y
   | BNone, BNone => true
   | BCur f o, BCur f' o' => (f =? f') && (o =? o')
@@ -86,6 +103,10 @@ Definition tx_read (d : db) (pending : list bytes) (r : rd) : ob :=
   | RRegion i off n => ob_of (tx_region d pending i off n)
   | RHeader i => ob_of (tx_region d pending i 0 hdr_size)
   | RLoc i => match row_of d i with Some row => dig row | None => BNone end
+  | RRegions reqs => ob_of_bulk (tx_regions d pending reqs)
+  | RHeaders is => ob_of_bulk (tx_headers d pending is)
+  | RBlocks is => ob_of_bulk (seq_all (map (fun i => match pend i with Some raw => Ok raw
+                                                   | None => db_fetch NET crc32c_be d i end) is))
   end.
 
 Fixpoint exec (d : db) (ops : list op) : list ob * db :=
